@@ -25,3 +25,40 @@ package slip
 //@ func slip.DefLambda
 //@   property C01
 //@   ensures fresh-result: fresh(result)
+
+// ---------------------------------------------------------------------------
+// C03: printing then reading gives back an equal object.
+
+// A symbol is printed between |pipes| whenever one of its bytes would not lex
+// as part of a plain token; the table lemmas tie the printer's table to the
+// reader's tables byte by byte.
+//@ func slip.(Symbol).Readably
+//@   property C03
+//@   ensures quoted: (len(obj) > 0 && obj[0] != ':' && (exists i :: 0 <= i && i < len(obj) && needPipeMap[obj[i]] == 'x')) ==> (len(result) > len(b) && result[len(b)] == '|')
+//@   ensures empty: len(obj) == 0 ==> (len(result) == len(b) + 2 && result[len(b)] == '|' && result[len(b) + 1] == '|')
+//@   ensures prefix-kept: forall j :: (0 <= j && j < len(b)) ==> result[j] == old(b[j])
+//@   loop rangeindex: invariant scanned: forall j :: (0 <= j && j <= rangeindex) ==> needPipeMap[obj[j]] != 'x'
+//@   lemma-each c 0 255 unquoted-byte-lexes-as-token: needPipeMap[c] != 'x' ==> (valueMode[c] == 't' && tokenMode[c] == 'a')
+//@   lemma-each c 0 255 piped-byte-kept: (c != 124 && c != 92) ==> symbolMode[c] == 's'
+
+// Integers: the radix prefix written is the one for the base the digits are
+// written in (ndig/dig: abstract digit sequence of strconv.AppendInt).
+//@ func slip.(Fixnum).Readably
+//@   property C03
+//@   requires base-range: 2 <= p.Base && p.Base <= 36
+//@   ensures plain: !p.Radix ==> (len(result) == len(b) + ndig(obj, p.Base) && (forall j :: (0 <= j && j < ndig(obj, p.Base)) ==> result[len(b) + j] == dig(obj, p.Base, j)))
+//@   ensures radix-2: (p.Radix && p.Base == 2) ==> (result[len(b)] == '#' && result[len(b) + 1] == 'b' && (forall j :: (0 <= j && j < ndig(obj, 2)) ==> result[len(b) + 2 + j] == dig(obj, 2, j)))
+//@   ensures radix-8: (p.Radix && p.Base == 8) ==> (result[len(b)] == '#' && result[len(b) + 1] == 'o' && (forall j :: (0 <= j && j < ndig(obj, 8)) ==> result[len(b) + 2 + j] == dig(obj, 8, j)))
+//@   ensures radix-16: (p.Radix && p.Base == 16) ==> (result[len(b)] == '#' && result[len(b) + 1] == 'x' && (forall j :: (0 <= j && j < ndig(obj, 16)) ==> result[len(b) + 2 + j] == dig(obj, 16, j)))
+//@   ensures radix-10: (p.Radix && p.Base == 10) ==> (len(result) == len(b) + ndig(obj, 10) + 1 && result[len(result) - 1] == '.' && (forall j :: (0 <= j && j < ndig(obj, 10)) ==> result[len(b) + j] == dig(obj, 10, j)))
+//@   ensures radix-n: (p.Radix && p.Base != 2 && p.Base != 8 && p.Base != 16 && p.Base != 10) ==> (len(result) == len(b) + 2 + ndig(p.Base, 10) + ndig(obj, p.Base) && result[len(b)] == '#' && (forall j :: (0 <= j && j < ndig(p.Base, 10)) ==> result[len(b) + 1 + j] == dig(p.Base, 10, j)) && result[len(b) + 1 + ndig(p.Base, 10)] == 'r' && (forall j :: (0 <= j && j < ndig(obj, p.Base)) ==> result[len(b) + 2 + ndig(p.Base, 10) + j] == dig(obj, p.Base, j)))
+
+//@ func slip.(*Bignum).Readably
+//@   property C03
+//@   requires base-range: 2 <= p.Base && p.Base <= 36
+//@   ensures plain: !p.Radix ==> (len(result) == len(b) + ndigbig(obj, p.Base) && (forall j :: (0 <= j && j < ndigbig(obj, p.Base)) ==> result[len(b) + j] == digbig(obj, p.Base, j)))
+//@   ensures radix-2: (p.Radix && p.Base == 2) ==> (result[len(b)] == '#' && result[len(b) + 1] == 'b' && (forall j :: (0 <= j && j < ndigbig(obj, 2)) ==> result[len(b) + 2 + j] == digbig(obj, 2, j)))
+//@   ensures radix-8: (p.Radix && p.Base == 8) ==> (result[len(b)] == '#' && result[len(b) + 1] == 'o' && (forall j :: (0 <= j && j < ndigbig(obj, 8)) ==> result[len(b) + 2 + j] == digbig(obj, 8, j)))
+//@   ensures radix-16: (p.Radix && p.Base == 16) ==> (result[len(b)] == '#' && result[len(b) + 1] == 'x' && (forall j :: (0 <= j && j < ndigbig(obj, 16)) ==> result[len(b) + 2 + j] == digbig(obj, 16, j)))
+//@   ensures radix-10: (p.Radix && p.Base == 10) ==> (len(result) == len(b) + ndigbig(obj, 10) + 1 && result[len(result) - 1] == '.')
+//@   ensures radix-n: (p.Radix && p.Base != 2 && p.Base != 8 && p.Base != 16 && p.Base != 10) ==> (len(result) == len(b) + 2 + ndig(p.Base, 10) + ndigbig(obj, p.Base) && result[len(b)] == '#' && (forall j :: (0 <= j && j < ndig(p.Base, 10)) ==> result[len(b) + 1 + j] == dig(p.Base, 10, j)) && result[len(b) + 1 + ndig(p.Base, 10)] == 'r' && (forall j :: (0 <= j && j < ndigbig(obj, p.Base)) ==> result[len(b) + 2 + ndig(p.Base, 10) + j] == digbig(obj, p.Base, j)))
